@@ -83,3 +83,47 @@ func VxH_C07_descriptors() {
 		vx.Reach("font-face")
 	}
 }
+
+// the font shorthand, on every value of up to 3 (thorough 4) tokens from its own vocabulary:
+// no panic, and an accepted value sets font-size and font-family.
+func VxH_C07_font() {
+	n := vx.Choose("n", 4+vx.Tier())
+	idents := []string{"normal", "bold", "italic", "small-caps", "condensed", "serif", "caption", "x"}
+	var value []pa.Token
+	for i := 0; i < n; i++ {
+		id := "t" + string(rune('0'+i))
+		var t pa.Token
+		switch k := vx.Choose(id, len(idents)+6); {
+		case k < len(idents):
+			t = pa.NewIdent(idents[k], pa.Pos{})
+		case k == len(idents):
+			t = pa.NewDimension(pa.NewNumber(12, pa.Pos{}), "px")
+		case k == len(idents)+1:
+			t = pa.VxPercentage(50)
+		case k == len(idents)+2:
+			t = pa.NewNumber(2, pa.Pos{})
+		case k == len(idents)+3:
+			t = pa.NewLiteral("/", pa.Pos{})
+		case k == len(idents)+4:
+			t = pa.NewLiteral(",", pa.Pos{})
+		default:
+			t = pa.String{}
+		}
+		value = append(value, t)
+	}
+	out := PreprocessDeclarations("", []pa.Compound{pa.Declaration{Name: "font", Value: value}})
+	vx.Reach("validated")
+	if len(out) > 0 {
+		vx.Reach("accepted")
+		size, family := false, false
+		for _, d := range out {
+			if d.Name.KnownProp == pr.PFontSize {
+				size = true
+			}
+			if d.Name.KnownProp == pr.PFontFamily {
+				family = true
+			}
+		}
+		vx.Assert("accepted-font-sets-size-and-family", size && family)
+	}
+}
